@@ -430,6 +430,16 @@ func genCase(t *rapid.T) Case {
 			p.Ops = append(p.Ops, "pint-comment")
 		}
 	}
+	// A line break character as the file's very first bytes (every position after it is shifted by one line while
+	// the byte-level line splitters have nothing before it to look back at), often together with a last line that
+	// has no final newline, so that the last rule line is the last line of the file (seed C02-7).
+	if rapid.IntRange(0, 5).Draw(t, "leadbreak") == 0 {
+		src = rapid.SampledFrom([]string{"\u2028", "\u2029", "\u0085", "\r", "\n", "\r\n", "\u2028\u2029", "\ufeff\u2028"}).Draw(t, "leadbreak.ch") + src
+		if rapid.Bool().Draw(t, "leadbreak.nofinal") {
+			src = strings.TrimRight(src, "\r\n")
+		}
+		p.Ops = append(p.Ops, "lead-linebreak")
+	}
 	c.Ops = p.Ops
 	c.set(src)
 	return c
